@@ -2,14 +2,14 @@
    check_corr: the operational model (Model.v) reproduces the observation.
    check_spec: the observation is what the specification (Spec.v, template tree alone) denotes. *)
 From Coq Require Import ZArith QArith Qcanon List Bool.
-Require Import QV.common.Util QV.C02.Spec QV.C02.Model.
+Require Import QV.common.Util QV.C02.Spec QV.C02.Model QV.C02.Stack QV.C02.Merge QV.C02.Rewrite.
 Import ListNotations.
 Open Scope Qc_scope.
 
 Definition q (n : Z) (d : positive) : Qc := Q2Qc (n # d).
 
 Inductive obs :=
-| ORejected                                               (* ValueError / ParameterNotIntegerException ... *)
+| ORejected (c : eclass)                                  (* class of the exception create_program raised *)
 | ONone                                                   (* create_program returned None *)
 | OProg (dur : Qc) (ws : list window) (durc : Qc) (wsc : list window). (* duration, windows; both after cleanup() *)
 
@@ -17,6 +17,20 @@ Inductive case :=
 | CProg (p : pt) (en : list (N * Qc)) (mm : list (N * option N)) (o : obs)
   (* a hand-built Loop: duration, windows, windows after reverse_inplace(), windows after cleanup() *)
 | CLoop (l : loop) (dur : Qc) (ws : list window) (wrev wclean : option (list window)) (durclean : Qc)
+  (* the calls the template performed on the (instrumented, otherwise unchanged) LoopBuilder, each with the state of
+     all active builders right after it: per builder (innermost first), per stack frame (top first) *)
+| CTrace (p : pt) (en : list (N * Qc)) (mm : list (N * option N)) (tr : list (ev * list (list fobs)))
+  (* MappingPT(MappingPT(body, pm1, mml1, cs1 [, identifier]), pm2, mml2): did the constructor merge, the composed
+     renaming of every measurement name of the body, the value every parameter of the body receives *)
+| CMerge (names pars : list N) (pm1 : list (N * expr)) (mml1 : list (N * option N)) (cs1 : list pcon) (ident : bool)
+         (pm2 : list (N * expr)) (mml2 : list (N * option N)) (en : list (N * Qc))
+         (was_merged : bool) (mmobs : list (N * option N)) (pobs : list (N * Qc))
+  (* a structural rewrite applied to a hand-built Loop: duration / windows before, and after (None: the code refused) *)
+| CRw (r : rw) (l : loop) (dur0 : Qc) (ws0 : list window) (o : option (Qc * list window))
+  (* program built with volatile repetition counts under en, then every volatile count updated to its value under en2 *)
+| CVol (p : pt) (en en2 : list (N * Qc)) (mm : list (N * option N)) (ws2 : list window)
+  (* a case judged on the Python side only (flatten_and_balance / make_compatible: harness py_spec) *)
+| CPyOnly
 | CCrash.
 
 Definition env_of (l : list (N * Qc)) : env := fun x => match lookup l x with Some v => v | None => 0 end.
@@ -50,11 +64,63 @@ Fixpoint no_empty (l : loop) : bool :=
                                  | _ => forallb no_empty ch end
   end.
 
+(* the exception class the code answers a failing check with (KAtomicDur: the waveform constructors raise
+   AssertionError or ValueError depending on the class - any class is accepted) *)
+Definition class_matches (k : rkind) (c : eclass) : bool :=
+  match k, c with
+  | KConstraint, EConstraint => true
+  | KCountNotInt, ENotInt => true
+  | KNegWindow, EValue | KRangeNotInt, EValue | KStepZero, EValue => true
+  | KAtomicDur, _ => true
+  | _, _ => false
+  end.
+
+Definition ev_eqb (a b : ev) : bool :=
+  match a, b with
+  | EMeasure w, EMeasure w' => ms_eqb w w'
+  | EPlay d, EPlay d' => Qceqb d d'
+  | ESeqEnter w, ESeqEnter w' => ms_eqb w w'
+  | ERepEnter n w, ERepEnter n' w' => Nat.eqb n n' && ms_eqb w w'
+  | ESeqExit, ESeqExit | ERepExit, ERepExit | ERevEnter, ERevEnter | ERevExit, ERevExit
+  | ESubEnter, ESubEnter | ESubExit, ESubExit => true
+  | _, _ => false
+  end.
+Definition fobs_eqb (a b : fobs) : bool :=
+  match a, b with
+  | OLoop n ms k d, OLoop n' ms' k' d' => Nat.eqb n n' && ms_eqb ms ms' && Nat.eqb k k' && Qceqb d d'
+  | OGuard p, OGuard p' => ms_eqb p p'
+  | _, _ => false
+  end.
+Fixpoint list_eqb {A} (f : A -> A -> bool) (a b : list A) : bool :=
+  match a, b with
+  | [], [] => true
+  | x :: a', y :: b' => f x y && list_eqb f a' b'
+  | _, _ => false
+  end.
+(* the model machine is run over the MODEL's event sequence; every event and every intermediate state is compared *)
+Fixpoint trace_ok (es : list ev) (m : machine) (tr : list (ev * list (list fobs))) : bool :=
+  match es, tr with
+  | [], [] => true
+  | e :: es', (e', snap) :: tr' =>
+      ev_eqb e e' &&
+      match step e m with
+      | Some m' => list_eqb (list_eqb fobs_eqb) (obs_machine m') snap && trace_ok es' m' tr'
+      | None => false
+      end
+  | _, _ => false
+  end.
+
+Definition merge_body : pt := Atom false (EC 1) [].
+Definition lookup_is {A} (eqb : A -> A -> bool) (l : list (N * A)) (k : N) (v : A) : bool :=
+  match lookup l k with Some v' => eqb v v' | None => false end.
+Definition optN_eqb (a b : option N) : bool :=
+  match a, b with Some x, Some y => N.eqb x y | None, None => true | _, _ => false end.
+
 Definition check_corr (c : case) : bool :=
   match c with
   | CProg p en mm o =>
       match create_program p (env_of en) (mm_of mm), o with
-      | Rejected, ORejected => true
+      | Rejected k, ORejected c => class_matches k c
       | NoProgram, ONone => true
       | Program l, OProg d ws dc wsc =>
           Qceqb (ldur l) d && ms_eqb (loop_windows l) ws
@@ -65,6 +131,31 @@ Definition check_corr (c : case) : bool :=
       Qceqb (ldur l) d && ms_eqb (loop_windows l) ws && Qceqb (ldur (cleanup l)) dc
       && match wrev with Some w => ms_eqb (loop_windows (reverse_loop l)) w | None => true end
       && match wclean with Some w => ms_eqb (loop_windows (cleanup l)) w | None => true end
+  | CTrace p en mm tr => trace_ok (events p (env_of en) (mm_of mm)) [new_builder] tr
+  | CMerge names pars pm1 mml1 cs1 ident pm2 mml2 en was_merged mmobs pobs =>
+      let inner := if ident then Single (Map pm1 mml1 cs1 merge_body) else Map pm1 mml1 cs1 merge_body in
+      match mk_map pm2 mml2 [] inner with
+      | Map pm mml _ (Atom _ _ _) =>
+          was_merged && forallb (fun k => lookup_is optN_eqb mmobs k (mcomp mml Some k)) names
+          && forallb (fun x => lookup_is Qceqb pobs x (menv pm (env_of en) x)) pars
+      | Map pm mml _ _ =>
+          negb was_merged && forallb (fun k => lookup_is optN_eqb mmobs k (mcomp mml1 (mcomp mml Some) k)) names
+          && forallb (fun x => lookup_is Qceqb pobs x (menv pm1 (menv pm (env_of en)) x)) pars
+      | _ => false
+      end
+  | CRw r l d0 ws0 o =>
+      Qceqb (ldur l) d0 && ms_eqb (loop_windows l) ws0 &&
+      match apply_rw r l, o with
+      | None, None => true
+      | Some l', Some (d, ws) => Qceqb (ldur l') d && ms_eqb (loop_windows l') ws
+      | _, _ => false
+      end
+  | CVol p en en2 mm ws2 =>
+      match updated_program p (env_of en) (env_of en2) (mm_of mm) with
+      | Some l => ms_eqb (loop_windows l) ws2
+      | None => false
+      end
+  | CPyOnly => true
   | CCrash => false
   end.
 
@@ -73,7 +164,8 @@ Definition check_spec (c : case) : bool :=
   | CProg p en mm o =>
       let e := env_of en in
       match o with
-      | ORejected => negb (must_accept p e)          (* an assignment with nothing to object to must be accepted *)
+      | ORejected c => may_reject c p e     (* a refusal needs a violated condition of that class somewhere in the tree;
+                                               in particular an assignment with nothing to object to must be accepted *)
       | ONone => negb (plays p e)
       | OProg d ws dc wsc =>
           plays p e && Qceqb (tdur p e) d && ms_eqb (denote p e (mm_of mm)) ws
@@ -83,5 +175,24 @@ Definition check_spec (c : case) : bool :=
       ms_eqb (exec_windows l) ws && (if no_empty l then Qceqb d dc else true)
       && match wrev with Some w => ms_eqb (mirror d ws) w | None => true end       (* reversal mirrors about the duration *)
       && match wclean with Some w => if no_empty l then ms_eqb ws w else true | None => true end
+  | CTrace p en mm tr =>
+      (* stack discipline and duration: at the end exactly one builder with exactly its root frame is left, whose
+         body lasts what the template says and has children iff the template plays *)
+      match rev tr with
+      | [] => negb (plays p (env_of en))
+      | (_, snap) :: _ =>
+          match snap with
+          | [[OLoop 1 _ k d]] => Qceqb d (tdur p (env_of en)) && Bool.eqb (0 <? k)%nat (plays p (env_of en))
+          | _ => false
+          end
+      end
+  | CMerge names pars pm1 mml1 cs1 ident pm2 mml2 en was_merged mmobs pobs =>
+      (* whatever the constructor did: names are renamed by the composition, parameters receive the composition *)
+      forallb (fun k => lookup_is optN_eqb mmobs k (mcomp mml1 (mcomp mml2 Some) k)) names
+      && forallb (fun x => lookup_is Qceqb pobs x (menv pm1 (menv pm2 (env_of en)) x)) pars
+  | CRw r l d0 ws0 o =>
+      match o with None => true | Some (d, ws) => Qceqb d d0 && ms_eqb ws ws0 end
+  | CVol p en en2 mm ws2 => ms_eqb (denote p (env_of en2) (mm_of mm)) ws2
+  | CPyOnly => true
   | CCrash => false
   end.
